@@ -1,0 +1,115 @@
+//go:build verif
+
+package handlers
+
+// Contracts for the govc verifier (/verif). Comment-only.
+
+// The readiness interface is implemented by the two connection states only.
+//@ type StateReady
+//@   closed
+
+// ---------------------------------------------------------------------------------------
+// C12: what an untrusted connection can reach.
+//
+// isolated(): no object of the trusted side — the block-request / sync state, the block store and
+// its caches, the unconfirmed set — is written (frame obligation, discharged from the write sets
+// of the callees and their contracts).
+
+//@ spec isolated() = untouched(state.State, storage.BlockRepository, storage.TxRepository)
+
+//@ spec linkedUpTo(hs, n) = forall(k, 1, n, hs[k].PrevBlock == BlockHashOf(*hs[k-1]))
+
+// A peer is marked verified only after sending a non-empty, hash-linked list of headers whose
+// first header is in the node's chain, not more than UntrustedHeaderDelta+1 below the tip.
+//@ func (*UntrustedHeadersHandler).Handle
+//@   serves C12
+//@   opt nomonitor = 1
+//@   requires handler != nil && handler.state != nil && handler.blocks != nil && handler.peers != nil
+//@   requires typeis(m, *wire.MsgHeaders) ==> forall(k, 0, len(as(m, *wire.MsgHeaders).Headers), as(m, *wire.MsgHeaders).Headers[k] != nil)
+//@   requires storage.InvMem(handler.blocks)
+//@   loop 0 invariant 0 <= _i && _i <= len(message.Headers) - 1 && previousHash != nil && *previousHash == BlockHashOf(*message.Headers[_i])
+//@   loop 0 invariant linkedUpTo(message.Headers, _i + 1)
+//@   loop 0 invariant isolated() && !handler.state.verified == !old(handler.state.verified)
+//@   assert verify_gate at call SetVerified : [C12] len(message.Headers) > 0 && has(handler.blocks.heights, BlockHashOf(*message.Headers[0]))
+//@        && handler.blocks.heights[BlockHashOf(*message.Headers[0])] >= handler.blocks.height - 7
+//@        && linkedUpTo(message.Headers, len(message.Headers))
+//@   ensures isolated: [C12] isolated()
+//@   ensures verified_only_here: [C12] handler.state.verified && !old(handler.state.verified) ==> result1 == nil && typeis(m, *wire.MsgHeaders)
+
+// Announcements from a peer are ignored until it is verified; requests it triggers are recorded as
+// untrusted (C14's AddRequest contract: an untrusted call never sets the trusted mark).
+//@ func (*UntrustedInvHandler).Handle
+//@   serves C12
+//@   opt nomonitor = 1
+//@   opt partial = 1
+//@   requires handler != nil && handler.state != nil && handler.memPool != nil && handler.tracker != nil
+//@   requires state.InvTx(handler.memPool) && handler.tracker.txids != nil
+//@   requires typeis(m, *wire.MsgInv) ==> forall(k, 0, len(as(m, *wire.MsgInv).InvList), as(m, *wire.MsgInv).InvList[k] != nil)
+//@   loop 0 invariant 0 <= _i && _i <= len(msg.InvList) && isolated() && handler.state.verified
+//@   loop 0 invariant state.InvTx(handler.memPool) && handler.tracker.txids != nil
+//@   assert request_untrusted at call AddRequest : [C12] !arg3 && handler.state.verified
+//@   assert track_verified at call Add : [C12] handler.state.verified
+//@   ensures isolated: [C12] isolated()
+
+// A transaction from an untrusted peer enters the pipeline marked untrusted and unconfirmed.
+//@ func (*UntrustedTXHandler).Handle
+//@   serves C12
+//@   opt nomonitor = 1
+//@   requires handler != nil && handler.txChannel != nil
+//@   assert enters_untrusted at call Add : [C12] !arg1.Trusted && arg1.ConfirmedHeight == -1
+//@   ensures isolated: [C12] isolated()
+
+//@ func (*UntrustedVersionHandler).Handle
+//@   serves C12
+//@   opt nomonitor = 1
+//@   requires handler != nil && handler.state != nil
+//@   ensures isolated: [C12] isolated() && handler.state.verified == old(handler.state.verified)
+
+//@ func (*AddressHandler).Handle
+//@   serves C12
+//@   opt nomonitor = 1
+//@   opt partial = 1
+//@   requires handler != nil && handler.peers != nil
+//@   loop 0 invariant 0 <= _i && isolated()
+//@   ensures isolated: [C12] isolated()
+
+//@ func (*PingHandler).Handle
+//@   serves C12
+//@   ensures isolated: [C12] isolated()
+
+//@ func (*RejectHandler).Handle
+//@   serves C12
+//@   ensures isolated: [C12] isolated()
+
+// An extended message is handed to one of the two handlers the ExtendedHandler was built with.
+//@ func (*ExtendedHandler).Handle
+//@   serves C12
+//@   opt partial = 1
+//@   requires handler != nil
+//@   assert dispatch_own at call Handle : [C12] arg0 == handler.blockHandler || arg0 == handler.txHandler
+
+// The handler table of an untrusted connection: every command is served by an untrusted-side
+// handler bound to the connection's own (untrusted) state; the extended-message handler forwards
+// to the same transaction handler as the plain tx command; no trusted-side handler is reachable.
+//@ func NewUntrustedMessageHandlers
+//@   serves C12
+//@   ensures tx: [C12] typeis(result[wire.CmdTx], *UntrustedTXHandler)
+//@   ensures inv: [C12] typeis(result[wire.CmdInv], *UntrustedInvHandler) && as(result[wire.CmdInv], *UntrustedInvHandler).state == untrustedState
+//@   ensures headers: [C12] typeis(result[wire.CmdHeaders], *UntrustedHeadersHandler) && as(result[wire.CmdHeaders], *UntrustedHeadersHandler).state == untrustedState
+//@   ensures version: [C12] typeis(result[wire.CmdVersion], *UntrustedVersionHandler) && as(result[wire.CmdVersion], *UntrustedVersionHandler).state == untrustedState
+//@   ensures extended: [C12] typeis(result[wire.CmdExtended], *ExtendedHandler) && as(result[wire.CmdExtended], *ExtendedHandler).txHandler == result[wire.CmdTx]
+//@        && as(result[wire.CmdExtended], *ExtendedHandler).blockHandler == result[wire.CmdBlock]
+//@   ensures no_trusted_handler: [C12] forall(k string, has(result, k) ==> !typeis(result[k], *TXHandler) && !typeis(result[k], *InvHandler) && !typeis(result[k], *HeadersHandler) && !typeis(result[k], *VersionHandler))
+//@   ensures block: [C12] typeis(result[wire.CmdBlock], *BlockHandler) && as(result[wire.CmdBlock], *BlockHandler).blockRefeeder == nil
+
+// The block handler is shared by both kinds of connection (an untrusted connection reaches the
+// trusted request queue through it): a block body enters the queue, or the refeeder, only if its
+// transactions hash to the merkle root of its header — and State.AddBlock (C13) only takes a block
+// whose header hash was requested.
+//@ func (*BlockHandler).Handle
+//@   serves C12 C04
+//@   opt nomonitor = 1
+//@   opt partial = 1
+//@   requires handler != nil && handler.state != nil && state.InvQ(handler.state)
+//@   assert valid_before_queue at call AddBlock : [C12] [C04] BlockValid(arg2)
+//@   assert valid_before_refeed at call SetBlock : [C12] [C04] BlockValid(arg2)
